@@ -5,7 +5,7 @@ import Mkts.Extracted.Skeletons
 has: read off the regenerated skeletons (`+exprs`: assignments and returned expressions are listed) of
 `OnDiskAggTrigger.Fire` and `cachedAgg.Valid`.  Core Lean only. -/
 namespace Mkts.OnDiskAgg
-open Mkts.FlushProto (hasSub)
+open Mkts.Skel (hasSub)
 
 /-- `cs = io.ColumnSeriesUnion(&c.cs, cs)`: the written rows are the right operand -/
 def unionNewWinsAtom : String := "assign:cs=io.ColumnSeriesUnion(&c.cs, cs)"
